@@ -161,6 +161,8 @@ def c08_reencode(r, regions, ops, variant, at_index):
                     out.append((None, [("g", t) for t in enc.encode(("unit", "in"))]))
                 elif variant == "rel":
                     out.append((None, [("g", t) for t in enc.encode(("abs", False))]))
+                elif variant == "inchrel":
+                    out.append((None, [("g", t) for t in enc.encode(("unit", "in")) + enc.encode(("abs", False))]))
                 elif variant == "g92":
                     out.append((None, [("g", t) for t in enc.encode(("g92xyz", 100.0, 50.0, 10.0))]))
             if op[0] in ("unit", "abs"):
